@@ -5,6 +5,10 @@ counters, same order of checks, same container-state stack.  `usize` is 64-bit: 
 saturating operations of the code (`total_scalar_bytes.saturating_add`, the ratio product
 `saturating_mul`) are modelled as saturating at `2^64-1`; the `+= 1` counters are unbounded `Nat`
 (an overflow would need 2^64 observed events).
+
+Per-document policy (`EnforcingPolicy::PerDocument`): a document is charged from its own `DocumentStart`
+through its `DocumentEnd` — `observe` resets the per-document state BEFORE it counts a `DocumentStart`,
+and does not count `StreamStart` / `StreamEnd` at all (`Enf.perDocPrologue`).
 -/
 namespace SaphyrVerif.Budget
 open SaphyrVerif SaphyrVerif.Scalars
@@ -120,8 +124,20 @@ def Enf.bumpDepth (e : Enf) : Except Breach Enf :=
   if md > e.lim.maxDepth then .error (.depth md)
   else .ok { e with depth := d, report := { e.report with maxDepth := md } }
 
-/-- `BudgetEnforcer::observe` -/
-def Enf.observe (e0 : Enf) (ev : Raw) : Except Breach Enf :=
+/-- The per-document prologue of `observe` (the `if self.policy == PerDocument { match ev {…} }` block):
+`DocumentStart` forgets the previous document BEFORE the event is counted, `StreamStart` / `StreamEnd`
+return `Ok(())` at once (`none`: nothing is counted), every other event passes unchanged.  Under the
+whole-input policy every event passes unchanged. -/
+def Enf.perDocPrologue (e : Enf) (ev : Raw) : Option Enf :=
+  if e.perDocument then
+    match ev with
+    | .docStart _ => some e.beginDocument
+    | .streamStart | .streamEnd => none
+    | _ => some e
+  else some e
+
+/-- the body of `observe` after the per-document prologue: count the event, then the `match ev` -/
+def Enf.observeCounted (e0 : Enf) (ev : Raw) : Except Breach Enf :=
   let e := { e0 with report := { e0.report with events := e0.report.events + 1 } }
   if e.report.events > e.lim.maxEvents then .error (.events e.report.events) else
   match ev with
@@ -177,15 +193,27 @@ def Enf.observe (e0 : Enf) (ev : Raw) : Except Breach Enf :=
     if a > e.lim.maxAliases then .error (.aliases a)
     else .ok { e with report := { e.report with aliases := a }, containers := handleAlias e.containers }
   | .docStart _ =>
-    if e.perDocument then .ok e.beginDocument
-    else
+    if !e.perDocument then
       let d := e.report.documents + 1
       if d > e.lim.maxDocuments then .error (.documents d)
       else .ok { e with report := { e.report with documents := d } }
+    else .ok e
   | .docEnd => .ok e
   | .nothing => .ok e
   | .streamStart => .ok e
   | .streamEnd => .ok e
+
+/-- `BudgetEnforcer::observe` -/
+def Enf.observe (e : Enf) (ev : Raw) : Except Breach Enf :=
+  match e.perDocPrologue ev with
+  | none => .ok e
+  | some e0 => e0.observeCounted ev
+
+/-- `begin_document_at`: a document begins at `ev` (its `DocumentStart`) after events that bypassed `observe` (the
+recovery path of the streaming reader).  Per-document policy: the event is observed like any other `DocumentStart`;
+whole-input policy: nothing is counted. -/
+def Enf.beginDocumentAt (e : Enf) (ev : Raw) : Except Breach Enf :=
+  if e.perDocument then e.observe ev else .ok e
 
 /-- `observe_alias_to_be_replayed`: the event and the alias are counted, the key/value bookkeeping is left
 to the replayed node -/
